@@ -38,7 +38,8 @@ KINDS = {
     'accel': (9.81, 'm/s^2', [('m/s^2', F64), ('mm/s^2', F64)]),
     'freq': (14.0, 'Hz', [('Hz', F64), ('kHz', F64), ('Hz', F32)]),
 }
-VEC_UNITS = {'vlen': ['m', 'mm'], 'vacc': ['m/s^2', 'mm/s^2']}
+VEC_UNITS = {'vlen': ['m', 'mm'], 'vacc': ['m/s^2', 'mm/s^2'], 'vq': ['1/angstrom', '1/nm']}
+VEC_BASE = {'vlen': 'm', 'vacc': 'm/s^2', 'vq': '1/angstrom'}
 
 
 def scalar_var(kind, variant, shape, scale=1.0):
@@ -62,7 +63,7 @@ def scalar_var(kind, variant, shape, scale=1.0):
 
 def vec_var(kind, variant, values, shape='0d'):
     unit = VEC_UNITS[kind][variant]
-    base = 'm' if kind == 'vlen' else 'm/s^2'
+    base = VEC_BASE[kind]
     if shape == '0d':
         v = sc.vector(values, unit=base)
     else:
@@ -107,8 +108,9 @@ class Vv:
 
 
 class Const:
-    def __init__(self, make):
+    def __init__(self, make, make2=None):
         self.make = make
+        self.make2 = make2  # other values of the same shape (used by props/layouts.py for in-place updates between calls)
 
     def variants(self):
         return [0]
@@ -173,11 +175,13 @@ def _lin(mat):
 
 _ROTM = [[0.0, -1.0, 0.0], [1.0, 0.0, 0.0], [0.0, 0.0, 1.0]]
 _BM = [[0.2, 0.01, 0.0], [0.0, 0.25, 0.03], [0.0, 0.0, 0.11]]
+_ROTM2 = [[1.0, 0.0, 0.0], [0.0, 0.0, -1.0], [0.0, 1.0, 0.0]]
+_BM2 = [[0.1, 0.0, 0.02], [0.0, 0.3, 0.0], [0.0, 0.01, 0.17]]
 KERNELS['conversion.tof.ub_matrix_from_u_and_b'] = (kt.ub_matrix_from_u_and_b, {'u_matrix': Const(lambda: _lin(_ROTM)), 'b_matrix': Const(lambda: sc.spatial.linear_transform(value=_BM, unit='1/angstrom'))})
 KERNELS['conversion.tof.hkl_vec_from_Q_vec'] = (kt.hkl_vec_from_Q_vec, {
-    'Q_vec': Const(lambda: sc.vectors(dims=['x'], values=[[1.0, 2.0, 3.0], [0.5, -1.0, 0.25]], unit='1/angstrom')),
-    'ub_matrix': Const(lambda: sc.spatial.linear_transform(value=_BM, unit='1/angstrom')),
-    'sample_rotation': Const(lambda: _lin(_ROTM))})
+    'Q_vec': Vv('vq', [1.0, 2.0, 3.0], PIX),
+    'ub_matrix': Const(lambda: sc.spatial.linear_transform(value=_BM, unit='1/angstrom'), lambda: sc.spatial.linear_transform(value=_BM2, unit='1/angstrom')),
+    'sample_rotation': Const(lambda: _lin(_ROTM), lambda: _lin(_ROTM2))})
 KERNELS['conversion.tof.hkl_elements_from_hkl_vec'] = (kt.hkl_elements_from_hkl_vec, {'hkl_vec': Const(lambda: sc.vectors(dims=['x'], values=[[1.0, 2.0, 3.0], [0.5, -1.0, 0.25]], unit='dimensionless'))})
 
 
